@@ -392,7 +392,7 @@ class Rec:
 
     def __init__(self, id, kind, mode, doc, meta=None):
         self.id, self.kind, self.mode, self.doc, self.meta = id, kind, mode, doc, meta
-        self.cost = (len(doc) + 3) * max(1, len(doc) // 400) if mode == "every" else 1
+        self.cost = (len(doc) + 3) * max(1, len(doc) // 400) if mode == "every" else 1 + len(doc) // 1000
 
 
 class Out:
@@ -483,8 +483,8 @@ class Drv:
             started = self._parse(rr.out, results, trans)
             os.unlink(path)
             if started is None:
-                if rr.rc != 0 or rr.timeout:
-                    incidents.append((None, rr, None, None))
+                if rr.rc != 0 and not (rr.timeout and all(r.id in results for r in pending)):
+                    incidents.append((None, rr, None, None))     # died outside a document (e.g. in a destructor at exit)
                 break
             idx = next((k for k, r in enumerate(pending) if r.id == started), None)
             if idx is None:
